@@ -411,7 +411,7 @@ def make_jobs(ctx):
         if rec & 0x30:
             phases = [50, 25, 75]        # the recipe's own intermediate-phase bit is exercised in the plan sweep; here explicit values
         if rng.chance(.25):
-            c0["min"], c0["large"] = 8 + rng.below(8), 13 + rng.below(8)
+            c0["min"], c0["large"] = 8 + rng.below(8), 8 + rng.below(13)      # log2_large_dft_size <= 12: dft_stage_init pads (former F5 region)
         up = float(orr) / float(ir)
         jobs.append({"cfg": c0, "phases": phases, "tones": [0.11, 0.47, 0.93] if up < 40 or not ctx.quick else [0.47],
                      "proto_cap": (4 if up > 20 else 16) if ctx.quick else (40 if up > 20 else 160)})
